@@ -94,6 +94,11 @@ pub fn c14(args: &Args, reg: &[TypeEntry], log: &mut Log) {
         if let (Some((a, _)), Some((b, _))) = (bodies.get("name"), bodies.get("inline")) {
             checks.insert("name~inline".into(), equiv(&env, a, b));
         }
+        for onull in ["opt", "nullable"] {
+            if let (Some((a, _)), Some((b, _))) = (bodies.get(&format!("name-optional-{onull}")), bodies.get(&format!("inline-optional-{onull}"))) {
+                checks.insert(format!("name~inline (optional = {onull})"), equiv(&env, a, b));
+            }
+        }
         if let (Some((a, parent)), Some(fname)) = (bodies.get("flat"), &fname) {
             let shape = g["shape"].as_str().unwrap_or("");
             let expected_src = if shape == "named" {
